@@ -57,7 +57,10 @@ CFG = {
     ),
     "trusted": [
         "instrumented in-memory store behind the five callbacks (scripted faults, per-key write counter making "
-        "every stored value unique, event log)",
+        "every stored value unique, event log); it merges: the row it keeps is computed from its actual current "
+        "row, an update / upsert callback answers with the value computed from the 'existing' argument it was "
+        "handed - the two coincide exactly when the handler passed the store's current row (on a cache miss upsert "
+        "is handed nil, so for an existing row its answer is not the stored row; the model has exactly this)",
         "logging CacheFacade wrapper around the real mux.FacadeMap / mux.FacadeLRU (passes every call through, "
         "reads contents with Peek below the log)",
         "gate scheduler of the scheduled runs: a worker parks before each instrumented call and is released one "
